@@ -682,7 +682,7 @@ impl<'e> Sim<'e> {
         clear_events();
         self.ledger_viols("when the caches were dropped");
         let leaked = live_tokens();
-        if !leaked.is_empty() && self.relaxed.is_none() && !self.stop {
+        if !leaked.is_empty() && self.relaxed.is_none() {
             self.push(C06, "never-dropped", format!("{} instances were never dropped nor handed back, e.g. #{}", leaked.len(), leaked[0]));
         }
         alloc::set_tracking(false);
